@@ -118,6 +118,20 @@ def make_job(name, funcs, build, call, exact_floats=True, timeout_s=900, fresh=T
 
 def helper_jobs(tier):
     js = []
+    # chord annotations in which neighbouring intervals carry the same chord (merge_chord_intervals joins them)
+    import mir_eval.chord as CHORD
+    reps = [((2, 1), ['C:maj', 'C'], ['G:7']), ((2, 2), ['A:min', 'A:min'], ['N', 'N'])]
+    if tier != 'quick':
+        reps.append(((3, 2), ['C:maj', 'G:7', 'G:7'], ['F:maj', 'F']))
+    for (size, rl, el) in reps:
+        def b(ctx, size=size, rl=rl, el=el):
+            inp = E.by_task('chord').build(ctx, size)
+            ri, _, ei, _ = inp['args']
+            return dict(args=(ri, list(rl), ei, list(el)), kw={})
+        js.append(make_job('chord.evaluate[%s,repeated neighbouring chords %s|%s]' % ('x'.join(map(str, size)), ','.join(rl), ','.join(el)),
+                           ['chord.evaluate', 'chord.merge_chord_intervals'], b, (lambda a: E.by_task('chord').call(a)), exact_floats=False))
+        js.append(make_job('chord.merge_chord_intervals[%s]' % ','.join(rl), ['chord.merge_chord_intervals'], b,
+                           (lambda a: CHORD.merge_chord_intervals(a['args'][0], a['args'][1])), exact_floats=False))
     # adjust_intervals / adjust_events with label lists (t_min/t_max variants incl. None)
     for tmin in ('sym', 'none'):
         for tmax in ('sym', 'none'):
